@@ -132,9 +132,10 @@ def parseFin (neg : Bool) (ip fp : List Char) (ex : Int) : UInt64 :=
   let mant := digitsToNat digs
   let e10 : Int := ex - (fp.length : Int)
   if mant == 0 then (if neg then signBit else 0) else
-  let mag : Int := (digs.length : Int) + e10
-  if mag > 330 then (if neg then negInfBits else posInfBits)
-  else if mag < -400 then (if neg then signBit else 0)
+  let magHi : Int := ((digs.dropWhile (· == '0')).length : Int) + e10
+  let magLo : Int := (digs.length : Int) + e10
+  if magHi > 330 then (if neg then negInfBits else posInfBits)
+  else if magLo < -400 then (if neg then signBit else 0)
   else if e10 ≥ 0 then ofRat neg (mant * 10 ^ e10.toNat) 1
   else ofRat neg mant (10 ^ (-e10).toNat)
 
@@ -159,7 +160,8 @@ def parseBody (neg : Bool) (body : List Char) : Option UInt64 :=
             | t => (false, t)
           let (ed, r'') := takeDigits r'
           if ed.isEmpty then none else
-          let ev := if ed.length > 7 then 10000000 else digitsToNat ed
+          let edSig := ed.dropWhile (· == '0')
+          let ev := if edSig.length > 7 then 10000000 else digitsToNat edSig
           some ((if eneg then -(ev : Int) else (ev : Int)), r'')
         else some (0, c :: r)
       | [] => some (0, [])
@@ -171,9 +173,10 @@ def parseBody (neg : Bool) (body : List Char) : Option UInt64 :=
       let mant := digitsToNat digs
       let e10 : Int := ex - (fp.length : Int)
       if mant == 0 then some (if neg then signBit else 0) else
-      let mag : Int := (digs.length : Int) + e10
-      if mag > 330 then some (if neg then negInfBits else posInfBits)
-      else if mag < -400 then some (if neg then signBit else 0)
+      let magHi : Int := ((digs.dropWhile (· == '0')).length : Int) + e10
+      let magLo : Int := (digs.length : Int) + e10
+      if magHi > 330 then some (if neg then negInfBits else posInfBits)
+      else if magLo < -400 then some (if neg then signBit else 0)
       else if e10 ≥ 0 then some (ofRat neg (mant * 10 ^ e10.toNat) 1)
       else some (ofRat neg mant (10 ^ (-e10).toNat))
 
@@ -249,6 +252,7 @@ theorem parse_int (neg : Bool) (ip : List Char) (hne : ip ≠ [])
 theorem parseFin_int (neg : Bool) (ip : List Char) (hm : digitsToNat ip ≠ 0)
     (hlen : ip.length ≤ 330) :
     parseFin neg ip [] 0 = ofRat neg (digitsToNat ip) 1 := by
+  have hdw : (ip.dropWhile (· == '0')).length ≤ ip.length := (List.dropWhile_sublist _).length_le
   unfold parseFin
   simp only [List.append_nil, List.length_nil, Int.natCast_zero, Int.sub_self, Int.add_zero,
     beq_iff_eq, hm, if_false, ge_iff_le, Int.le_refl, if_true, Int.toNat_zero, Nat.pow_zero,
@@ -259,6 +263,9 @@ theorem parseFin_frac (neg : Bool) (ip fp : List Char) (hfp : fp ≠ [])
     (hm : digitsToNat (ip ++ fp) ≠ 0) (hlen : ip.length ≤ 330) :
     parseFin neg ip fp 0 = ofRat neg (digitsToNat (ip ++ fp)) (10 ^ fp.length) := by
   have hpos : 0 < fp.length := List.length_pos_iff.2 hfp
+  have hdw : ((ip ++ fp).dropWhile (· == '0')).length ≤ ip.length + fp.length := by
+    have := (List.dropWhile_sublist (l := ip ++ fp) (· == '0')).length_le
+    rwa [List.length_append] at this
   unfold parseFin
   simp only [beq_iff_eq, hm, if_false, List.length_append]
   rw [if_neg (by omega), if_neg (by omega), if_neg (by omega)]
